@@ -246,8 +246,14 @@ def run_harness(vharness, cmd, cases, timeout=1200, env=None, extra_args=(), sta
             for c in todo:
                 outs[c.get("id")] = {"id": c.get("id"), "st": "timeout", "msg": "harness wall-clock budget exhausted"}
             break
+        lim = e.pop("VERIF_MEM_LIMIT_GB", None)      # address-space cap for streams that can ask for absurd allocations
+
+        def cap(lim=lim):
+            if lim:
+                import resource
+                resource.setrlimit(resource.RLIMIT_AS, (int(lim) << 30, int(lim) << 30))
         p = subprocess.Popen([vharness, cmd] + list(extra_args), stdin=subprocess.PIPE, stdout=subprocess.PIPE,
-                             stderr=subprocess.PIPE, env=e)
+                             stderr=subprocess.PIPE, env=e, preexec_fn=cap)
         q = queue.Queue()
         errbuf = []
 
